@@ -92,6 +92,8 @@ def rhoInner (what v : Nat) : Nat → Nat → Nat → Nat → Nat → Nat
 
 inductive PQErr where
   | tape
+  /-- `pq = 0` (`v.Mod(v, what)`) and `pq = 1` (`x.Mod(x, whatNext)`): division by zero, a Go panic. -/
+  | panic
   deriving Repr, DecidableEq
 
 /-- result construction at the end of `DecomposePQ`. -/
@@ -100,19 +102,23 @@ def pqFinish (what g : Nat) : Nat × Nat :=
   let q := what / g
   if p > q then (q, p) else (p, q)
 
-/-- the outer `for !(1 < g < what)` loop; `i` = round counter, `tape` = remaining random words. -/
+/-- the outer `for !(1 < g < what)` loop; `i` = round counter, `tape` = remaining random words.
+Each round first draws `v` (panics for `what = 0`), then `x` (panics for `what = 1`). -/
 def pqLoop (what : Nat) : List Nat → Nat → Nat → Except PQErr (Nat × Nat)
   | tape, i, g =>
     if Facts.C13.pqValue1 < g ∧ g < what then .ok (pqFinish what g)
     else match tape with
+      | [] => .error .tape
+      | [_] => if what = 0 then .error .panic else .error .tape
       | r1 :: r2 :: rest =>
-        let v := ((r1 % 2 ^ Facts.C13.pqRndBits &&& Facts.C13.pqMask) + Facts.C13.pqAdd) % what
-        let x := (r2 % 2 ^ Facts.C13.pqRndBits) % (what - Facts.C13.pqValue1) + Facts.C13.pqValue1
-        let lim := 2 ^ (i + Facts.C13.pqLimShift)
-        pqLoop what rest (i + 1) (rhoInner what v (lim - 1) 1 x x g)
-      | _ => .error .tape
+        if what = 0 ∨ what = Facts.C13.pqValue1 then .error .panic
+        else
+          let v := ((r1 % 2 ^ Facts.C13.pqRndBits &&& Facts.C13.pqMask) + Facts.C13.pqAdd) % what
+          let x := (r2 % 2 ^ Facts.C13.pqRndBits) % (what - Facts.C13.pqValue1) + Facts.C13.pqValue1
+          let lim := 2 ^ (i + Facts.C13.pqLimShift)
+          pqLoop what rest (i + 1) (rhoInner what v (lim - 1) 1 x x g)
 
-/-- `crypto.DecomposePQ pq randSource` for `pq ≥ 2`. -/
+/-- `crypto.DecomposePQ pq randSource` for `pq ≥ 0` (`.panic` = the division-by-zero panics of `pq ∈ {0, 1}`). -/
 def decomposePQ (pq : Nat) (tape : List Nat) : Except PQErr (Nat × Nat) := pqLoop pq tape 0 0
 
 end TdModel.C13
